@@ -248,8 +248,23 @@ func (f *Frame) edge(from, to *ssa.BasicBlock, st *State, which int, setEdge fun
 		}
 		return
 	}
-	// leaving a loop: calls made before the loop was entered count again
+	// leaving a loop: calls made before the loop was entered count again, and a function called somewhere in
+	// the loop body may have been called in an earlier iteration (unknown: a fresh Boolean)
 	for _, li := range f.loops {
+		if li.Body[from] && !li.Body[to] && f.isTop {
+			for _, k := range f.loopCallees(li) {
+				if st.called == nil {
+					st.called = map[string]Term{}
+				}
+				n := f.g.sym("maycall")
+				f.g.declare(n, SBool)
+				if cur, ok := st.called[k]; ok {
+					st.called[k] = tOr(cur, raw(n, SBool))
+				} else {
+					st.called[k] = raw(n, SBool)
+				}
+			}
+		}
 		if li.Body[from] && !li.Body[to] {
 			if saved := f.calledAtEntry[li.Header]; len(saved) > 0 {
 				if st.called == nil {
@@ -266,6 +281,39 @@ func (f *Frame) edge(from, to *ssa.BasicBlock, st *State, which int, setEdge fun
 		}
 	}
 	setEdge(from, to, st, which)
+}
+
+// loopCallees: keys of the functions called (statically) somewhere in the body of the loop, in a fixed order.
+func (f *Frame) loopCallees(li *LoopInfo) []string {
+	seen := map[string]bool{}
+	var out []string
+	for _, b := range f.fn.Blocks {
+		if !li.Body[b] {
+			continue
+		}
+		for _, in := range b.Instrs {
+			var c *ssa.CallCommon
+			switch x := in.(type) {
+			case *ssa.Call:
+				c = &x.Call
+			case *ssa.Defer:
+				c = &x.Call
+			case *ssa.Go:
+				c = &x.Call
+			}
+			if c == nil {
+				continue
+			}
+			if callee := c.StaticCallee(); callee != nil {
+				k := f.g.ctx.funcKey(callee)
+				if !seen[k] {
+					seen[k] = true
+					out = append(out, k)
+				}
+			}
+		}
+	}
+	return out
 }
 
 func (f *Frame) iteVal(c Term, a, b Val) Val {
